@@ -415,10 +415,14 @@ func runK7flush(r *rng, n int) {
 			{"WriteAt", 118, map[string]interface{}{"fid": uint64(1), "Data": []byte("abc")}},
 			{"GetAttr", 24, map[string]interface{}{"fid": uint64(1)}},
 			{"Walk", 110, map[string]interface{}{"fid": uint64(1), "newFID": uint64(9), "Names": []string{}}},
+			// a clone onto a fid that is already bound: the replaced File's Close is the call held
+			{"Close", 110, map[string]interface{}{"fid": uint64(2), "newFID": uint64(1), "Names": []string{}}},
 		}
 		k := kinds[r.intn(len(kinds))]
 		g := s.g.arm(k.meth, 0)
-		victim := s.send(0, k.t, k.v)
+		// the victim's tag is adversarial: NOTAG and its neighbours are tags like any other
+		victim := []uint16{0xffff, 0xfffe, 0x8000, 0, 40000 + uint16(r.intn(1000))}[r.intn(5)]
+		s.conns[0].write(s.frame(k.t, victim, k.v))
 		if !g.waitEntered(2 * time.Second) {
 			close(g.release)
 			s.close()
@@ -492,7 +496,7 @@ func runK7flush(r *rng, n int) {
 			noteHang()
 		}
 		count("flushed:" + k.meth)
-		emit("k7flush victim=%s chained=%d => early=%d idle=%d own=%d other=%d rflush=%d rvictim=%d dup=%d", k.meth, ch, early, idle, own, oth, rflush, rvictim, dup)
+		emit("k7flush victim=%s vtag=%d chained=%d => early=%d idle=%d own=%d other=%d rflush=%d rvictim=%d dup=%d", k.meth, victim, ch, early, idle, own, oth, rflush, rvictim, dup)
 	}
 }
 
@@ -525,6 +529,12 @@ func runK7tags(r *rng, n int) {
 			t, v := uint8(24), map[string]interface{}{"fid": uint64(1 + r.intn(4))}
 			if r.chance(1, 4) {
 				t, v = 8, map[string]interface{}{"fid": uint64(1 + r.intn(5))} // StatFS, sometimes on an unbound fid
+			}
+			if r.chance(1, 6) {
+				// a well-delimited frame of an unknown type: answered with Rlerror straight from the
+				// receive path, while other replies are being written
+				stream = append(stream, rawFrame(250, tag, []byte{1, 2, 3})...)
+				continue
 			}
 			stream = append(stream, s.frame(t, tag, v)...)
 		}
@@ -832,12 +842,94 @@ func runK7scen(r *rng, n int) {
 			s.recvReply(0, 3*time.Second)
 			s.recvReply(0, 3*time.Second)
 			s.close()
-			ok := 0
-			if moved == 75 && entered {
-				ok = 1
+			if moved == 75 && entered { // judged only when the scenario formed
+				emit("k7scen name=moved-fid-and-fresh-fid-share-the-path-lock => formed=1 overlap=%d", overlap)
 			}
-			emit("k7scen name=moved-fid-and-fresh-fid-share-the-path-lock => formed=%d overlap=%d", ok, overlap)
+		}
+		// an Rread whose frame is waiting to be written keeps its data: another Tread served
+		// meanwhile (same connection, pooled read buffers) must not show up in it
+		{
+			be := newBackend(&rng{s: r.next()}, 0, 0, false)
+			be.dirRoot, be.fullReads, be.fillByOff = true, true, true
+			srv := p9.NewServer(be)
+			hold := make(chan struct{})
+			var once sync.Once
+			first := make(chan struct{})
+			p := newServerPeerW(srv, func(w io.WriteCloser) io.WriteCloser {
+				return &holdWriter{WriteCloser: w, hold: hold, first: first, once: &once}
+			})
+			s := &k7Sess{be: be, g: &gater{}, srv: srv, conns: []*rawPeer{p}}
+			s.call(0, 100, map[string]interface{}{"MSize": uint64(8192), "Version": "9P2000.L.Google.7"})
+			s.call(0, 104, map[string]interface{}{"fid": uint64(0), "Auth.Authenticationfid": uint64(0xffffffff)})
+			s.walk(0, 0, 1, p9.ModeRegular|0644, "f")
+			s.call(0, 12, map[string]interface{}{"fid": uint64(1), "Flags": uint64(0)})
+			p.armed = true
+			ta := s.send(0, 116, map[string]interface{}{"fid": uint64(1), "Offset": uint64(65), "Count": uint64(4000)})
+			select {
+			case <-first:
+			case <-time.After(2 * time.Second):
+			}
+			s.send(0, 116, map[string]interface{}{"fid": uint64(1), "Offset": uint64(66), "Count": uint64(4000)})
+			// wait until the backend has served the second read
+			for k := 0; k < 200; k++ {
+				be.mu.Lock()
+				nreads := 0
+				for _, c := range be.calls {
+					if strings.Contains(c, ".ReadAt(") {
+						nreads++
+					}
+				}
+				be.mu.Unlock()
+				if nreads >= 2 {
+					break
+				}
+				time.Sleep(5 * time.Millisecond)
+			}
+			time.Sleep(10 * time.Millisecond)
+			close(hold)
+			clean, got := 1, 0
+			for k := 0; k < 2; k++ {
+				f, err := p.readFrame(10 * time.Second)
+				if err != nil || len(f) < 11 || f[4] != 117 {
+					continue
+				}
+				got++
+				want := byte(66)
+				if binary.LittleEndian.Uint16(f[5:]) == ta {
+					want = 65
+				}
+				for _, x := range f[11:] {
+					if x != want {
+						clean = 0
+						break
+					}
+				}
+			}
+			s.close()
+			if got == 2 { // judged only when both replies arrived (a slow machine is not a dirty buffer)
+				emit("k7scen name=rread-keeps-its-data-while-waiting-to-be-written => clean=%d", clean)
+			}
 		}
 	}
 	_ = strings.Join
+}
+
+// holdWriter blocks the first write of the first Rread frame until released.
+type holdWriter struct {
+	io.WriteCloser
+	hold  chan struct{}
+	first chan struct{}
+	once  *sync.Once
+}
+
+func (w *holdWriter) Write(b []byte) (int, error) {
+	if len(b) >= 5 && b[4] == 117 {
+		held := false
+		w.once.Do(func() { held = true })
+		if held {
+			close(w.first)
+			<-w.hold
+		}
+	}
+	return w.WriteCloser.Write(b)
 }
